@@ -15,6 +15,7 @@
 """Helps nanoemoji build svg fonts."""
 
 import dataclasses
+import math
 from io import BytesIO
 from itertools import groupby
 from fontTools import ttLib
@@ -338,17 +339,25 @@ def _map_gradient_coordinates(
             p2=affine.map_point(paint.p2),
         )
     elif isinstance(paint, PaintRadialGradient):
-        scalex, scaley = affine.getscale()
-        if not scalex or abs(scalex) != abs(scaley):
+        # circles stay circles under a similarity only: uniform scale, rotation,
+        # reflection and translation; radii scale by the length of the mapped unit vector
+        a, b, c, d = affine[:4]
+        scale = math.hypot(a, b)
+        epsilon = 1e-9 * scale * scale
+        if (
+            not scale
+            or abs(a * c + b * d) > epsilon
+            or abs(a * a + b * b - c * c - d * d) > epsilon
+        ):
             raise ValueError(
-                f"Expected uniform scale and/or translate, found: {affine}"
+                f"Expected uniform scale, rotation and/or translate, found: {affine}"
             )
         return dataclasses.replace(
             paint,
             c0=affine.map_point(paint.c0),
             c1=affine.map_point(paint.c1),
-            r0=abs(affine.map_vector((paint.r0, 0)).x),
-            r1=abs(affine.map_vector((paint.r1, 0)).x),
+            r0=scale * paint.r0,
+            r1=scale * paint.r1,
         )
     raise TypeError(type(paint))
 
